@@ -28,7 +28,7 @@ CLAIMS = {
  "C10": ("V1 trailer table extraction + who-may-read non-interference analysis of file_version", "4 C10",
          "Static analysis: the V1 read arm decoded (seek End(-21), u64 LE / u8 via from_u8 / u64 LE, index_levels = 0, magic 0x76324D4C) and compared with the statement, write_into's V1 arm and (thorough) 0.4.7; V1/V2 arms agree up to the levels byte; Metadata.file_version is read only by the getter and the trailer writer, so no query code can depend on the version."),
  "C11": ("who-may-call inventory of I/O primitives + byte-count dataflow", "4 C11",
-         "Static analysis: the only raw io::Write::write is CountWrite's counting delegation whose addend is the accepted byte count; no write_all override; no raw io::Read::read; block bodies read through take(len) + read_to_end/decoder; offsets only from CountWrite::count(); no nondeterministic primitives. Given std's write_all/read_exact/read_to_end contracts the emitted stream and read results are independent of how I/O calls are split or interrupted. Fixtures prove the zero-expected detectors fire."),
+         "Static analysis: the only raw io::Write::write is CountWrite's counting delegation whose addend is the accepted byte count; no write_all override; a raw io::Read::read only inside an interruption-retrying pass-through adapter, and the caller's reader reaches the codec crates' decoders only behind that adapter (a decoder that cannot resume after ErrorKind::Interrupted was a genuine defect, repaired); block bodies read through take(len) + read_to_end/decoder; offsets only from CountWrite::count(); no nondeterministic primitives. Given std's write_all/read_exact/read_to_end contracts the emitted stream and read results are independent of how I/O calls are split or interrupted. Fixtures prove the zero-expected detectors fire."),
  "C12": ("error-discipline dataflow over every fallible call result + exhaustive conversion table", "4 C12",
          "Static analysis: 150-210 fallible call results inventoried per configuration, each consumed by a propagating idiom (no drop/.ok()/if-let-Ok/unwrap/panicking Err arm); convert_merge_error maps every variant inhabited for Infallible to itself and is only applied to Error<Infallible>; merge errors reach Error::Merge; create errors go Into->convert->?; flush before handing the sink back. Data-dependent codec errors are outside."),
  "C13": ("call-graph closure + panic-source inventory with constant folding + acceptance decision table", "4 C13",
@@ -74,7 +74,7 @@ m = {
   {"name": "rules", "path": "/verif/rules", "serves_properties": sorted(CLAIMS), "kind_free_text": "python3 stdlib rule engine over the fact files: normalisation pre-passes (rename alignment, inlining of new helpers, combinator desugaring + closure inlining), CFG, dominators/post-dominators, reaching-definition expression reconstruction, body specialisation per enum variant, interprocedural origin tracing, who-may-call / who-may-write inventories, pairing, decision tables, mirror comparison, symbolic cost, linear-invariant certificates; floors and fixtures make every rule non-vacuous"},
  ],
  "checks": checks,
- "notes": "Technique family: static analysis only (nothing of grenad is executed by any check). Fix commits in /repo: 1babdda, c494583, de4f8dd, 5f2e922 (see known_findings.txt).",
+ "notes": "Technique family: static analysis only (nothing of grenad is executed by any check). Fix commits in /repo: 1babdda, c494583, de4f8dd, 5f2e922, e0b8054 (see known_findings.txt).",
  "not_applicable": na,
 }
 json.dump(m, open(os.path.join(V, "MANIFEST.json"), "w"), indent=1)
